@@ -951,10 +951,21 @@ func parseNetworkResource(item daemon.ResourceItem) eni.NetworkResource {
 			v6, _ = netip.ParseAddr(item.IPv6)
 		}
 
+		mac := item.ENIMAC
+		if item.ENIID == "" && mac == "" {
+			// legacy record, the id is mac.ip
+			if parts := strings.SplitN(item.ID, ".", 2); len(parts) == 2 {
+				mac = parts[0]
+				if !v4.IsValid() {
+					v4, _ = netip.ParseAddr(parts[1])
+				}
+			}
+		}
+
 		return &eni.LocalIPResource{
 			ENI: daemon.ENI{
 				ID:  item.ENIID,
-				MAC: item.ENIMAC,
+				MAC: mac,
 			},
 			IP: types.IPSet2{
 				IPv4: v4,
